@@ -3,8 +3,9 @@ Proof: AdfProps/C13.lean (for EVERY program every volume-level access lies in [f
 cylinder ranges have disjoint block ranges; a sector changes only through a successful write event at that sector).
 Tie: the `rdb` profile (1-4 partitions of random cylinder ranges, a history on one of them), C vs model, trace-exact,
 plus hostile block numbers (negative / huge pointers poked into a partition's root block).
-Oracle on the real code: every sector in the C access log while a partition is mounted lies inside that partition;
-bytes outside it are identical before/after."""
+Oracle on the real code: the block range of every partition is computed from its cylinder numbers by the check itself and
+compared with what the library reports at creation and after re-opening; every sector in the C access log while a
+partition is mounted lies inside that range; bytes outside it are identical before/after."""
 import os, re, json, vlib, gen, hist
 PID = "C13"
 
